@@ -18,7 +18,7 @@ ONext == UNCHANGED i
 C == Cases[i]
 SetOf(s) == {s[k] : k \in 1..Len(s)}
 Cfg == [bnd |-> SetOf(C.cfg.bnd), seed |-> SetOf(C.cfg.seed), eq |-> C.cfg.eq, slack |-> C.cfg.slack, gens |-> C.cfg.gens,
-        spur |-> C.cfg.spur]
+        spur |-> C.cfg.spur, ghost |-> C.cfg.ghost]
 D == Derive(Cfg)
 
 \* tolerances between two independent solves: 30 µ p.u. + 20 ppm, 300 µ degree + 20 ppm
